@@ -47,10 +47,20 @@ With storage between years the code only has `meatUse m ≤ maxCulled m` (the *r
 total) per month and the overall total: meat can be eaten before it is slaughtered (D10).
 In the regimes without storage between years nothing forces the initial stock to be eaten (D14). -/
 
-/-- D10: a feasible point of the code's LP that eats meat before it is slaughtered -/
+/-- D10: a feasible point of the code's LP that eats meat before it is slaughtered.
+    The witness has honest data: non-negative slaughter, the monthly cap `maxCulled` is the running
+    slaughter total, `meatSummed` is the total of the horizon.
+    (Statement corrected: the side condition on `maxCulled` was first written `∀ m`, without
+    `m < i.nmonths`.  Past the end of the series `at' i.maxCulled m = 0` while
+    `cum (at' i.slaughtered) m` stays at the horizon total, so with non-negative slaughter that
+    form forces the total to be 0 and only a series with a negative entry could satisfy it.
+    The months of the horizon are what the code reads; the two extra conjuncts make the honesty
+    of the witness part of the statement.) -/
 theorem meat_gap_counterexample :
     ∃ (i : Inp ℚ) (x : Var → ℚ), 2 ≤ i.nmonths ∧ Feasible (buildLP i .toHumans) x ∧
-      (∀ m, at' i.maxCulled m = cum (at' i.slaughtered) m) ∧
+      (∀ s ∈ i.slaughtered, 0 ≤ s) ∧
+      (∀ m, m < i.nmonths → at' i.maxCulled m = cum (at' i.slaughtered) m) ∧
+      i.meatSummed = cum (at' i.slaughtered) (i.nmonths - 1) ∧
       ∃ e ∈ physGap i .toHumans x, 0 < e.value :=
   Proofs.LP.meat_gap_counterexample
 
